@@ -691,6 +691,10 @@ fn c15_check_entry(e: &rbpf::disassembler::HLInsn, i: &I, hi: Option<i32>) -> Op
 fn c15_check_prog(s: &mut Sink, insns: &[I], class: &str) -> u64 {
     // insns: a flat list where lddw occupies two entries
     let bytes = isa::enc(insns);
+    if rec_on() {
+        rec_push(json!({"k":"dis","p":hex(&bytes)}));
+        return 0;
+    }
     let rp = json!({"kind":"disasm","prog":hex(&bytes)});
     let res = catch(|| rbpf::disassembler::to_insn_vec(&bytes));
     let entries = match res {
@@ -872,6 +876,10 @@ pub fn replay_disasm(v: &Value) -> Vec<String> {
 // C13
 
 fn c13_check(s: &mut Sink, text: &str, want: &Option<Vec<u8>>, class: &str) {
+    if rec_on() {
+        rec_push(json!({"k":"asm","t":text}));
+        return;
+    }
     let got = catch(|| rbpf::assembler::assemble(text));
     let rp = || json!({"kind":"asm","text":text,"want": want.as_ref().map(|b| hex(b))});
     match (got, want) {
@@ -1212,6 +1220,10 @@ fn c14_text_class(text: &str) -> &'static str {
 }
 
 fn c14_check(s: &mut Sink, text: &str, _class: &str) {
+    if rec_on() {
+        rec_push(json!({"k":"asm","t":text}));
+        return;
+    }
     let class = c14_text_class(text);
     let t0 = std::time::Instant::now();
     let got = catch(|| rbpf::assembler::assemble(text));
